@@ -73,7 +73,7 @@ template <class S> void triples(vf::Ctx& c, const char* tname, double roll, bool
     c.note_max(std::string("angle_err_over_tol_") + tname, (double)(std::max({angdiff(b[0], a[0]), angdiff(b[1], a[1]), angdiff(b[2], a[2])}) / tol));
     // quaternion path, any norm / sign
     Eigen::Quaternion<S> q = eulerAnglesToQuaternion<S>(a);
-    for (S scale : {(S)1, (S)1e-3, (S)-1e3, (S)-1}) {
+    for (S scale : {(S)1, (S)1e-3, (S)-1e3, (S)-1, (S)(1 + 4.5e-13), (S)(1 - 4.5e-13), (S)(1 + 1e-10), (S)(1 - 1e-8), (S)(1 + 4e-6), (S)(1 - 4e-6), (S)(1 + 1e-4), (S)(-1 - 3e-6)}) {   // incl. nearly-unit norms at graded distances from 1
       Eigen::Quaternion<S> qs(q.w() * scale, q.x() * scale, q.y() * scale, q.z() * scale);
       V3 d = quaternionToEulerAngles<S>(qs);
       for (int i = 0; i < 3; ++i) if (angdiff(d[i], a[i]) > tol) { c.violation("quaternionToEulerAngles.roundTrip", params(), vf::JO().i("component", i).num("scale", scale).num("got", d[i]).done()); break; }
@@ -227,6 +227,31 @@ template <class S> void coords(vf::Ctx& c, const char* tname, bool th) {
   }
 }
 
+
+// SmartRotation3D re-initialised many times with angles a graded tiny step apart (down to below the machine epsilon): R() must stay that of the current angles
+void smart_trajectory(vf::Ctx& c, bool th) {
+  const double steps[] = {1e-19, 1e-17, 1e-16, 3e-16, 1e-13, 1e-9, 1e-6};
+  const Eigen::Vector3d starts[] = {{1e-3, -2e-3, 3e-3}, {0.7, -0.5, 2.2}, {0, 0, 0}, {3.0, 1.2, -6.0}};
+  int len = th ? 20000 : 1500;
+  for (auto& st : starts) for (double s : steps) for (int pat = 0; pat < 2; ++pat) {
+    SmartRotation3D obj(st);
+    for (int i = 1; i <= len; ++i) {
+      double f = pat == 0 ? (double)i : (double)((i % 2) ? (i + 1) / 2 : -(i / 2));
+      Eigen::Vector3d a(st[0] + f * s, st[1] - f * s, st[2] + 2 * f * s);
+      if (i % 2) obj.init(a); else obj.init(a[0], a[1], a[2]);
+      c.transitions();
+      if (i % 16 && i != len) continue;   // compared every 16th step and at the end (the intermediate steps only re-initialise)
+      c.eval(); c.nontrivial();
+      SmartRotation3D fresh(a);
+      if (!(obj.R() == fresh.R()) || !(obj.dRdAngleAroundZAxis() == fresh.dRdAngleAroundZAxis())) {
+        c.violation("SmartRotation3D.init.dependsOnHistory", vf::JO().str("explorer", "trajectory").vec("start", std::vector<double>{st[0], st[1], st[2]}).num("step_rad", s).str("pattern", pat ? "back-and-forth" : "drift").i("inits", i).done(), vf::JO().num("R_diff_vs_fresh", (obj.R() - fresh.R()).norm()).done());
+        break;
+      }
+    }
+    c.traces();
+  }
+}
+
 struct Case { int kind; int type; int idx; };
 std::vector<Case> g_cases[2];
 const std::vector<Case>& cases(bool th) {
@@ -236,6 +261,7 @@ const std::vector<Case>& cases(bool th) {
   for (int t = 0; t < 2; ++t) for (size_t i = 0; i < nr; ++i) v.push_back({0, t, (int)i});
   for (int t = 0; t < 2; ++t) { v.push_back({1, t, 0}); v.push_back({2, t, 0}); v.push_back({4, t, 0}); }
   v.push_back({3, 0, th ? 7 : 4});
+  v.push_back({3, 0, -1});   // init trajectories
   return v;
 }
 
@@ -250,7 +276,7 @@ void vf_run(uint64_t idx, const std::string& tier, vf::Ctx& c) {
     case 0: if (k.type == 0) triples<double>(c, "double", rollyaw(th)[k.idx], th); else triples<float>(c, "float", rollyaw(th)[k.idx], th); break;
     case 1: if (k.type == 0) matrices<double>(c, "double", th); else matrices<float>(c, "float", th); break;
     case 2: if (k.type == 0) normalisers<double>(c, "double", th); else normalisers<float>(c, "float", th); break;
-    case 3: smart_sequences(c, k.idx); break;
+    case 3: if (k.idx < 0) smart_trajectory(c, th); else smart_sequences(c, k.idx); break;
     case 4: if (k.type == 0) coords<double>(c, "double", th); else coords<float>(c, "float", th); break;
   }
 }
@@ -261,6 +287,7 @@ std::string vf_describe(const std::string& tier) {
   o.vec("roll_yaw", rollyaw(th)).vec("pitch", pitches(th));
   o.str("normaliser_inputs", "k*pi/2 +- {0, 1 ulp, 1e-12, 1e-5}, k=-7..7; lattice of 2000 (thorough 20000) in (-4pi,4pi); +-12.56; nextafter(+-4pi)");
   o.str("matrices", "axis-angle lattice 8 axes x 13 (thorough 72) angles, |R(2,0)|<=1-1e-6");
+  o.str("smart_rotation_trajectories", std::string("one object re-initialised ") + (th ? "20000" : "1500") + " times with angles {1e-19,1e-17,1e-16,3e-16,1e-13,1e-9,1e-6} rad apart (drift and widening back-and-forth) from 4 starts, bit-equal to a fresh object every 16 steps");
   o.str("smart_rotation_sequences", th ? "all init() sequences of depth 7 over 8 angle triples" : "all init() sequences of depth 4 over 8 angle triples");
   o.str("coordinates", "r in {1e-6,1e-3,1,1e3,1e6} x 24 (thorough 96) azimuths incl. -pi and multiples of pi/2 x elevations k*pi/12, 1e-3, 1e-6, pi-1e-3, pi-1e-6; tolerance 8 eps (1 + 1/max(theta, sqrt(eps))) relative to the norm, theta = angular distance to the nearest pole (acos-based elevation)");
   o.str("angle_tolerance", "double: min(1e-9, 1e-12 + 4e-15/cos(pitch)); float: 2e-5 + 2e-6/cos(pitch)");
